@@ -47,7 +47,8 @@ Record chan := mkChan { c_owner : nat; c_label : string; c_panel : panel; c_conn
 Record node := mkNode { n_label : string; n_kind : nkind; n_parent : option nat; n_detached : option string;
                         n_exec : exset; n_running : bool; n_failed : bool;
                         n_children : list nat; n_chans : list nat; n_starting : list nat }.
-Record heap := mkHeap { h_nodes : list (nat * node); h_chans : list (nat * chan); h_next : nat }.
+(* h_log: the nodes that were handed to an executor, latest first (bookkeeping for the observation only) *)
+Record heap := mkHeap { h_nodes : list (nat * node); h_chans : list (nat * chan); h_next : nat; h_log : list nat }.
 
 Definition panel_eqb (a b : panel) : bool :=
   match a, b with PIn, PIn | POut, POut | SIn, SIn | SOut, SOut => true | _, _ => false end.
@@ -60,8 +61,9 @@ Definition dchan : chan := mkChan 0 "" PIn [] None None.
 
 Definition nd (h : heap) (i : nat) : node := match assoc Nat.eqb i (h_nodes h) with Some n => n | None => dnode end.
 Definition ch (h : heap) (c : nat) : chan := match assoc Nat.eqb c (h_chans h) with Some x => x | None => dchan end.
-Definition setn (h : heap) (i : nat) (n : node) : heap := mkHeap (upd Nat.eqb i n (h_nodes h)) (h_chans h) (h_next h).
-Definition setc (h : heap) (c : nat) (x : chan) : heap := mkHeap (h_nodes h) (upd Nat.eqb c x (h_chans h)) (h_next h).
+Definition setn (h : heap) (i : nat) (n : node) : heap := mkHeap (upd Nat.eqb i n (h_nodes h)) (h_chans h) (h_next h) (h_log h).
+Definition setc (h : heap) (c : nat) (x : chan) : heap := mkHeap (h_nodes h) (upd Nat.eqb c x (h_chans h)) (h_next h) (h_log h).
+Definition note (h : heap) (i : nat) : heap := mkHeap (h_nodes h) (h_chans h) (h_next h) (i :: h_log h).
 
 (* field updates *)
 Definition c_with_conns (x : chan) (l : list nat) := mkChan (c_owner x) (c_label x) (c_panel x) l (c_val x) (c_recv x).
@@ -259,9 +261,9 @@ Definition DFUEL := 12.
 
 (* allocation *)
 Definition alloc_node (h : heap) (n : node) : heap * nat :=
-  (mkHeap ((h_next h, n) :: h_nodes h) (h_chans h) (S (h_next h)), h_next h).
+  (mkHeap ((h_next h, n) :: h_nodes h) (h_chans h) (S (h_next h)) (h_log h), h_next h).
 Definition alloc_chan (h : heap) (x : chan) : heap * nat :=
-  (mkHeap (h_nodes h) ((h_next h, x) :: h_chans h) (S (h_next h)), h_next h).
+  (mkHeap (h_nodes h) ((h_next h, x) :: h_chans h) (S (h_next h)) (h_log h), h_next h).
 
 Fixpoint alloc_chans (h : heap) (owner : nat) (l : list (string * panel * option Z)) : heap * list nat :=
   match l with
@@ -467,7 +469,7 @@ Section Run.
             let n := nd h1 i in
             if n_running n || n_failed n || negb (inputs_ready h1 i) then (h1, RRefused)
             else
-              let h2 := set_flags h1 i true false in
+              let h2 := if has_exec (n_exec n) then note (set_flags h1 i true false) i else set_flags h1 i true false in
               if crosses (n_exec n) then
                 match dump DFUEL h2 i with
                 | None => (h2, RSubmitErr)                    (* pickling at submit raised: stays running *)
@@ -514,24 +516,29 @@ Section Run.
         | _ =>
             (* Composite._on_run for a DAG-wired graph: every child once, upstream first (C01) *)
             let ups := upstreams h (n_children (nd h i)) in
-            (fix loop (rounds : nat) (h : heap) (done skip : list nat) : heap * outcome :=
+            (fix loop (rounds : nat) (h : heap) (done skip : list nat) (bad : bool) : heap * outcome :=
                match rounds with
-               | 0 => (h, ROk)
+               | 0 => (h, if bad then RFail else ROk)
                | S r =>
                    match find (fun k => negb (memn k done) && negb (memn k skip) && upstream_done ups done k) (n_children (nd h i)) with
-                   | None => (h, ROk)
+                   | None => (h, if bad then RFail else ROk)
                    | Some k =>
                        let (h1, o) := run_node f h k in
                        match o with
-                       | ROk => loop r h1 (k :: done) skip
+                       | ROk => loop r h1 (k :: done) skip bad
+                       | RFail =>
+                           (* the job of a child on an executor fails inside its done-callback: the exception is
+                              swallowed there (cf. C06/S6) and the parent goes on without it; the exception of a
+                              local child is raised in the parent's loop *)
+                           if has_exec (n_exec (nd h k)) then loop r h1 done (k :: skip) bad
+                           else if memn k (n_starting (nd h i)) then (h1, RFail) else loop r h1 done (k :: skip) true
                        | _ =>
-                           (* a child on an executor fails inside its done-callback: the exception is swallowed
-                              there (cf. C06/S6), the parent goes on without it; a local child's exception ends
-                              the parent's run *)
-                           if has_exec (n_exec (nd h k)) then loop r h1 done (k :: skip) else (h1, RFail)
+                           (* run() itself raised (not ready / submit failed): a starting node ends the parent's run at
+                              once, any other child is recorded and reported when the queue has drained *)
+                           if memn k (n_starting (nd h i)) then (h1, RFail) else loop r h1 done (k :: skip) true
                        end
                    end
-               end) (List.length (n_children (nd h i))) h [] []
+               end) (List.length (n_children (nd h i))) h [] [] false
         end
     end.
 
@@ -790,15 +797,17 @@ Definition orphan_obs (h0 h1 : heap) (ip : nat * string) : list obs :=
   if crosses (n_exec (nd h0 i)) && is_comp (n_kind (nd h0 i))
   then [OL [OS path; OL (map (fun k => OL [OS (n_label (nd h0 k));
                                             ob (match n_parent (nd h1 k) with None => true | Some _ => false end);
-                                            ob (match n_detached (nd h1 k) with None => true | Some _ => false end)])
+                                            ob (match n_detached (nd h1 k) with None => true | Some _ => false end);
+                                            ob (memn k (n_children (nd h1 i)))])
                               (n_children (nd h0 i)))]]
   else [].
 
 Definition flow_obs (mode : mmode) (h : heap) (root : nat) (probe : bool) : obs :=
   let path := "/" +++ n_label (nd h root) in
   let outs := out_nodes 8 h root path in
-  let pr := if probe then sort_t (flat_map (probes_of h) outs) else [] in
   let (h1, _) := run_node mode RFUEL h root in
+  (* probed: the nodes that really went out during this run *)
+  let pr := if probe then sort_t (flat_map (probes_of h) (filter (fun ip => memn (fst ip) (h_log h1)) outs)) else [] in
   OL [render h1 root; OL (map (fun t => match t with (a, b, c) => OL [OS a; OS b; OS c] end) pr);
       OL (flat_map (orphan_obs h h1) outs)].
 
